@@ -307,6 +307,28 @@ def check_comp(chk, prog, summ, f, slot_comp, nullable):
             chk.ob("K4", f.name, "self-dispatch", True, loc=loc, proof="no comp dispatch / direct call on (self, other)")
     # K6 totality on nullable states
     check_nullflow(chk, prog, summ, f, nullable, "K6")
+    # K7 no EQUAL verdict from inside the element loop: while the index is below both lengths, one pair of elements (two
+    # NULL placeholders, two equal members) cannot decide that the containers are equal - later elements and the lengths
+    # have not been looked at
+    for lp in walk(f.body):
+        if lp.get("k") not in ("for", "while", "do") or lp.get("cond") is None or lp.get("body") is None:
+            continue
+        if not (mentions_len(lp["cond"], 0) or mentions_len(lp["cond"], 1)):
+            continue
+
+        def may_be_zero(v):
+            v = X.strip(v)
+            if v is None:
+                return False
+            if v.get("k") == "cond":
+                return may_be_zero(v["ch"][1]) or may_be_zero(v["ch"][2])
+            return X.const_val(v) == 0
+        bad = [r for r in walk(lp["body"]) if r.get("k") == "return" and r.get("val") is not None and may_be_zero(r["val"])]
+        chk.ob("K7", f.name, "no-equal-verdict-inside-element-loop", not bad, loc=f.loc(bad[0]) if bad else f.loc(lp),
+               detail="%s returns SPIF_CMP_EQUAL from inside its element loop (%s): the first pair of elements that compares equal - "
+                      "two NULL placeholders - ends the comparison, whatever the later elements and the lengths are" % (
+                          f.name, X.render(bad[0])[:40] if bad else ""),
+               proof="every return inside the loop yields a non-EQUAL verdict")
     # K5 length tie-break
     if mentions_len(f.body, 0) or mentions_len(f.body, 1):
         # locals that are plain copies of one object's length (mine = self->len; the temporaries of MIN())
@@ -977,7 +999,7 @@ def run(tier="quick"):
                             "discipline and totality of dup on nullable states; type names the class")
     for rid, txt in (("K1", "comp(NULL,NULL) == EQUAL"), ("K2", "comp returns only sign-normalised values"),
                      ("K3", "sign idiom operand is signed, <= int, not a narrowed wider difference"),
-                     ("K4", "no self-dispatch recursion in comp"), ("K5", "length tie-break in length-bounded comparisons"),
+                     ("K4", "no self-dispatch recursion in comp"), ("K5", "length tie-break in length-bounded comparisons"), ("K7", "no EQUAL verdict from inside an element loop"),
                      ("K6", "comp does not dereference a field/element that may be NULL in a reachable state"),
                      ("D1", "dup returns a fresh object"), ("D2", "owned pointer fields of the copy are fresh"),
                      ("D3", "elements of the copy are duplicates"), ("D4", "dup is total on nullable states"), ("D5", "the copy satisfies the representation invariant (its recorded capacity is really allocated)"),
